@@ -244,12 +244,16 @@ pub fn check(c: &Case) -> Verdict {
                 Err("no Eof within the call bound".into())
             }
             Some(p) => {
-                let cuts: Vec<usize> = crate::sources::cuts_fixed(p as usize, data.len()).into_iter().filter(|&c| c >= 4).collect();
+                // odd piece sizes >= 3: the caller buffer starts non-empty and is never cleared
+                let keep = p >= 3 && p % 2 == 1;
+                let cuts = crate::props::c02::normalise_cuts(data, &crate::sources::cuts_fixed(p as usize, data.len()));
                 let mut r = Reader::from_reader(ChunkedBufRead::new(data, cuts));
                 apply_cfg(r.config_mut(), NEUTRAL);
-                let mut buf = Vec::new();
+                let mut buf = if keep { PREFILL.to_vec() } else { Vec::new() };
                 for k in 0..call_bound(data.len()) {
-                    buf.clear();
+                    if !keep {
+                        buf.clear();
+                    }
                     let before = r.buffer_position();
                     let e = r.read_event_into(&mut buf);
                     let after = r.buffer_position();
